@@ -430,7 +430,8 @@ def build_plot_call(spec, fx, M, D):
                     x, y, z = l.get_data_3d()
                     data["lines"].append([np.asarray(x, float).tolist(), np.asarray(y, float).tolist(),
                                           np.asarray(z, float).tolist()])
-            plt.close("all")
+            if not spec.get("keep_open") and fig is not None:
+                plt.close(fig)            # otherwise the caller keeps the figure open, as notebooks do
             return data
         return call3d, [dg], None
     if fn == "imager.plot_diagram":
